@@ -283,9 +283,25 @@ ADDED_B12 = {
     "C15": "Added after the twelfth batch: C15.14 the regular expression that lets a property name be printed without quotes is within ID_Start ID_Continue* (class items checked against the identifier categories).",
     "C16": "Added after the twelfth batch: C16.8 the text emitted as $ref is computed by methods of the context that read no field written after construction and write none; the storing method files the body under the given name on every normal path.",
 }
+ADDED_B13 = {
+    "C01": "Added after the thirteenth batch: C01.21-24 (found and guard fixes 6c73e44, d3e757b, 4a7926d, f54bfce, f6f6092): reviewed table of meaning-changing syntax fields each read by the frontend; `+?` like `?`; rest element last; `__proto__` keys computed; C01.25 declared vs undeclared keys (= C03.7 + C11.2).",
+    "C02": "Added after the thirteenth batch: C02.22 every array schema the tuple class returns is closed (items is the rest schema or false).",
+    "C03": "Added after the thirteenth batch: C03.17 every kind a validator admits by instanceof is an opaque leaf of the deep merge (found and guards fix 9883fdf: Map / Set parsed to {}); C03.18 no module-level mutable state of the runtime besides registries.",
+    "C04": "Added after the thirteenth batch: C04.10 the producer of every emitted regex literal tests its result for emptiness (found and guards fix c3deaee).",
+    "C05": "Added after the thirteenth batch: C05.14 a negative is skipped (positive handed on unchanged) only under an emptiness test.",
+    "C06": "Added after the thirteenth batch: the arm algebra interprets destructuring helper parameters, so literal-set helpers are checked row by row.",
+    "C07": "Added after the thirteenth batch: C07.12 (= C08.10) and C07.13 (an optional part of an atom is materialised whenever it is present).",
+    "C08": "Added after the thirteenth batch: C08.13 nothing lowered under one key's scope binding is carried into the next iteration of a mapped-type loop.",
+    "C09": "Added after the thirteenth batch: C09.16 own export tables are consulted before the walk over the export * targets (found and guards fix 1cd7eb1; evaluation order over the typed HIR); C09.17 collected star members are hidden by named re-exports too.",
+    "C11": "Added after the thirteenth batch: C11.8 (= C07.13) the materialiser never drops an index signature.",
+    "C15": "Added after the thirteenth batch: C15.15 the Record lowering and the mapped-type lowering classify the members of a key type alike (what describe() prints as [K in ..] compiles back to an index signature).",
+    "C16": "Added after the thirteenth batch: C16.9 the mark / store protocol of the printing context is driven by validator classes only (parser keys are another namespace).",
+}
 for _k, _v in ADDED_B11.items():
     ADDED_B10[_k] = (ADDED_B10.get(_k, "") + " " + _v).strip()
 for _k, _v in ADDED_B12.items():
+    ADDED_B10[_k] = (ADDED_B10.get(_k, "") + " " + _v).strip()
+for _k, _v in ADDED_B13.items():
     ADDED_B10[_k] = (ADDED_B10.get(_k, "") + " " + _v).strip()
 for _k in ADDED_B10:
     if _k not in CLAIMED:
